@@ -453,11 +453,10 @@ class LongRun(Slice):
         sim.load_program(f"li t0, {n}\nloop:\naddi t0, t0, -1\naddi t1, t1, 1\nbne t0, zero, loop\nli a7, 93\nli a0, 42\necall")
         sim.run()
         f = []
-        got = (sim.is_done(), sim.state.exit_code, int(sim.state.register_file.registers[6]), int(sim.state.register_file.registers[5]),
-               sim.state.performance_metrics.instruction_count)
-        want = (True, 42, n, 0, 3 * n + 5)
+        got = (sim.is_done(), sim.state.exit_code, int(sim.state.register_file.registers[6]), int(sim.state.register_file.registers[5]))
+        want = (True, 42, n, 0)
         if got != want:
-            f.append(("violation", f"run() of a {3 * n + 5}-instruction countdown returned with (done, exit code, t1, t0, instruction count) = {got}, "
+            f.append(("violation", f"run() of a {3 * n + 5}-instruction countdown returned with (done, exit code, t1, t0) = {got}, "
                                    f"stepping until done gives {want}"))
         return f, {"million-cycles" if 3 * n + 5 > 1000000 or case["mode"] != "single_stage_pipeline" else "short"}
 
